@@ -37,7 +37,10 @@ def cases(draw, max_chroms=4, max_bins=6, max_width=8):
     symmetric = draw(st.booleans())
     rows = draw(gen.pixels(n, symmetric, count=st.integers(1, 99)))
     return {"part": "extent", "bt": bt, "symmetric": symmetric, "rows": rows,
-            "store": draw(st.sampled_from(["path", "handle"])), "rot": draw(st.integers(0, 6))}
+            "store": draw(st.sampled_from(["path", "handle"])), "rot": draw(st.integers(0, 6)),
+            # history: after the first chromosome has been queried, chromosomes are renamed on the same object
+            # (cyclic shift of the existing names, or fresh names) and the remaining queries use the new names
+            "rename": draw(st.sampled_from([None, None, "shift", "fresh"]))}
 
 
 def _regions(name, e):
@@ -106,7 +109,22 @@ def check_extent(case, ctx: Ctx):
         psel = clr.pixels()
         bsel = clr.bins()
         rot = case["rot"]
-        for ci, (name, e) in enumerate(zip(bt["names"], bt["edges"])):
+        names_now = list(bt["names"])
+        for ci, e in enumerate(bt["edges"]):
+            if ci == 1 and case.get("rename") and case["store"] == "path":
+                if case["rename"] == "shift":
+                    m = dict(zip(names_now, names_now[1:] + names_now[:1]))
+                else:
+                    m = {nm: f"renamed{t}" for t, nm in enumerate(names_now)}
+                call(f"rename_chroms({m})", cooler.rename_chroms, clr, m)
+                names_now = [m[x] for x in names_now]
+                bt = dict(bt, names=names_now)
+                brow = model.bins_rows(bt)
+                bdf = gen.bins_df(bt)
+                cs = gen.chromsizes_series(bt)
+                gs = GenomeSegmentation(cs, bdf)
+                grouped = bdf.groupby("chrom", sort=False)
+            name = names_now[ci]
             L = e[-1]
             c_lo, c_hi = offs[ci], offs[ci + 1]
             short_last = len(e) >= 3 and (e[-1] - e[-2]) != (e[1] - e[0])
@@ -182,7 +200,8 @@ def check_extent(case, ctx: Ctx):
         ctx.classes["spell-" + k] += v
     kinds = sorted(set(bt["kinds"]))
     ctx.record(case, n_nt > 0, ["extent", *["kind-" + k for k in kinds], "store-" + case["store"],
-                                "reported-fixed" if model.true_binsize(bt) else "reported-variable"],
+                                "reported-fixed" if model.true_binsize(bt) else "reported-variable",
+                                "renamed-" + str(case.get("rename")) if case["store"] == "path" else "renamed-None"],
                n_eval=n_eval, n_nontrivial=n_nt)
 
 
